@@ -102,6 +102,10 @@ inductive Ev
   | create (d : Nat)
   | render (d : Nat) (finalized : Bool)
   | fin (d : Nat) (by_ : By)
+  /-- how a call made from inside `_render_` back into the iterator ended -/
+  | cb (outcome : Option Exc)
+  /-- `render_data.finalized` as seen at the end of a `_render_` that made such a call -/
+  | renderEnd (d : Nat) (finalized : Bool)
 
 structure World where
   /-- frame count of the renderable: 0 = INDEFINITE, 1 = not animated -/
@@ -158,6 +162,10 @@ inductive Act
   | markDropped (i : Nat)
   | callerDrop (d : Nat)
   | setFfw (b : Bool)
+  /-- the renderable notes how its call back into the iterator ended (it swallows the exception) -/
+  | logCb (o : Option Exc)
+  /-- the end of a `_render_` that called back: still rendering with this data -/
+  | renderEnd (d : Nat)
 
 def apply : Act → World → World
   | .newData o it h, w =>
@@ -190,6 +198,10 @@ def apply : Act → World → World
   | .markDropped i, w => w.setIter i fun it => { it with dropped := true }
   | .callerDrop d, w => w.setObj d fun o => { o with held := false }
   | .setFfw b, w => { w with ffw := b }
+  | .logCb o, w => w.log (.cb o)
+  | .renderEnd d, w =>
+    (w.setObj d fun o => { o with usedAfter := o.usedAfter + (if o.finalized then 1 else 0) }).log
+      (.renderEnd d (w.objs d).finalized)
 
 def target : Act → Option Target
   | .render _ => some .render
@@ -327,8 +339,61 @@ def finishCtl (c : Ctl) : Ctl := { c with gen := .finished }
 def seekCtl (n : Nat) (c : Ctl) : Ctl := { c with offset := n }
 def bumpCtl (c : Ctl) : Ctl := { c with version := c.version + 1 }
 
+/-- `seek` / `set_*`: the finalized check, then the part that steers iteration -/
+def ctlP (i : Nat) (f : Ctl → Ctl) : P :=
+  .get fun w =>
+    if (w.iters i).closed then .raise .finalizedIter
+    else .do (.ctl i f)
+
+inductive Whence | start | current | end_
+deriving DecidableEq, Repr
+
+/-- `RenderIterator.seek(offset, whence)`: the finalized check first, then the range tests -/
+def seekP (i : Nat) (wh : Whence) (off : Int) : P :=
+  .get fun w =>
+    if (w.iters i).closed then .raise .finalizedIter
+    else if w.fc = 0 then
+      if (wh = .start ∧ off < 0) ∨ (wh = .end_ ∧ off > 0) then .raise .valueError else .done
+    else
+      let frame : Int :=
+        match wh with
+        | .start => off
+        | .current => ((w.iters i).ctl.offset : Int) + off
+        | .end_ => (w.fc : Int) + off - 1
+      if 0 ≤ frame ∧ frame < (w.fc : Int) then .do (.ctl i (seekCtl frame.toNat)) else .raise .valueError
+
+/-! calls from inside `_render_` back into the iterator: the generator `_iterate` is executing -/
+
+/-- `close()` while the generator is executing: `self._iterator.close()` is the first thing `close()`
+    does and it raises `ValueError: generator already executing` -/
+def reCloseP (i : Nat) : P :=
+  .get fun w => if (w.iters i).closed then .done else .raise .valueError
+
+/-- `next()` while the generator is executing: `next(self._iterator)` raises ValueError, which
+    `__next__` answers with `self.close()` — which raises the same -/
+def reNextP (i : Nat) : P :=
+  .tryExcept (.raise .valueError) (fun e => e.isException) fun e => .seq (reCloseP i) (.raise e)
+
+inductive CbKind
+  | close
+  | next
+  | seek (wh : Whence) (off : Int)
+
+def cbProg (i : Nat) : CbKind → P
+  | .close => reCloseP i
+  | .next => reNextP i
+  | .seek wh off => seekP i wh off
+
+/-- the rest of a `_render_` that calls back into its iterator: the call (whatever it raises is
+    caught and noted by the renderable), then the render goes on with the same data -/
+def cbPart (i d : Nat) : Option CbKind → P
+  | none => .done
+  | some k =>
+    .seq (.tryExcept (.seq (cbProg i k) (.do (.logCb none))) (fun _ => true) fun e => .do (.logCb (some e)))
+      (.do (.renderEnd d))
+
 /-- one frame of `_iterate` from the `try: frame = renderable._render_(…)` on -/
-def renderStep (i : Nat) : P :=
+def renderStep (i : Nat) (cb : Option CbKind := none) : P :=
   .get fun w =>
     let it := w.iters i
     let c := it.ctl
@@ -337,13 +402,13 @@ def renderStep (i : Nat) : P :=
     if c.cached && c.cache frameNo == some c.version then .do (.ctl i (advCtl definite))
     else
       .seq
-        (.tryExcept (.do (.render it.data)) (· == .stopIteration) fun _ =>
+        (.tryExcept (.seq (.do (.render it.data)) (cbPart i it.data cb)) (· == .stopIteration) fun _ =>
           if definite then .raise .stopDefinite
           else .act (.ctl i loop0Ctl) (.raise .ret))
         (.do (.ctl i (storeCtl definite frameNo)))
 
 /-- resuming the generator `_iterate` after a `yield` (the dummy frame or a real one) -/
-def genBody (i : Nat) : P :=
+def genBody (i : Nat) (cb : Option CbKind := none) : P :=
   .get fun w =>
     let c := (w.iters i).ctl
     if 1 < w.fc ∧ ¬ c.offset < w.fc then
@@ -351,23 +416,23 @@ def genBody (i : Nat) : P :=
       .act (.ctl i endLoopCtl) <|
         .get fun w' =>
           let c' := (w'.iters i).ctl
-          if ¬ c'.inf ∧ c'.loop = 0 then .raise .ret else renderStep i
-    else renderStep i
+          if ¬ c'.inf ∧ c'.loop = 0 then .raise .ret else renderStep i cb
+    else renderStep i cb
 
 /-- `next(self._iterator)` -/
-def genNext (i : Nat) : P :=
+def genNext (i : Nat) (cb : Option CbKind := none) : P :=
   .get fun w =>
     if !(w.iters i).hasIterator then .raise .attributeError
     else if (w.iters i).ctl.gen = .finished then .raise .stopIteration
     else
       -- a generator that returns or lets an exception out is finished
-      .tryExcept (genBody i) (fun _ => true) fun e =>
+      .tryExcept (genBody i cb) (fun _ => true) fun e =>
         .act (.ctl i finishCtl)
           (.raise (if e = .ret then .stopIteration else e))
 
 /-- `RenderIterator.__next__` -/
-def nextP (i : Nat) : P :=
-  .tryExcept (genNext i) (fun e => e.isException) fun e =>
+def nextP (i : Nat) (cb : Option CbKind := none) : P :=
+  .tryExcept (genNext i cb) (fun e => e.isException) fun e =>
     if e = .stopIteration then .seq (closeP i) (.raise .stopIteration)
     else if e = .attributeError then
       .get fun w =>
@@ -375,22 +440,17 @@ def nextP (i : Nat) : P :=
         else .seq (closeP i) (.raise .attributeError)
     else .seq (closeP i) (.raise e)
 
-/-- `seek` / `set_*`: the finalized check, then the part that steers iteration -/
-def ctlP (i : Nat) (f : Ctl → Ctl) : P :=
-  .get fun w =>
-    if (w.iters i).closed then .raise .finalizedIter
-    else .do (.ctl i f)
-
-/-- `seek(n, Seek.START)` -/
-def seekP (i : Nat) (n : Nat) : P :=
-  .get fun w =>
-    if (w.iters i).closed then .raise .finalizedIter
-    else if w.fc = 0 then .done
-    else if n < w.fc then .do (.ctl i (seekCtl n))
-    else .raise .valueError
-
 /-- `set_render_size` & co.: cached frames become stale -/
 def bumpP (i : Nat) : P := ctlP i bumpCtl
+
+/-- the `set_*` control operations -/
+inductive CtlKind | size | duration | padding | args
+deriving DecidableEq, Repr
+
+/-- `set_render_size` / `set_frame_duration` / `set_padding` / `set_render_args`: the finalized check, then
+    (size, duration) a value that differs from the current one makes the cached frames stale -/
+def setP (i : Nat) (k : CtlKind) (fresh : Bool) : P :=
+  ctlP i (if fresh && (k = .size || k = .duration) then bumpCtl else id)
 
 /-- `RenderIterator.__del__` (the caller dropped its last reference): `try: self.close() except
     AttributeError: pass`; whatever else comes out of a `__del__` is ignored by the interpreter -/
@@ -502,7 +562,11 @@ inductive Op
   | fromData (d : Nat) (finalize : Bool) (loops : Int) (cache : CacheArg) (args : ArgsKind)
   | next (i : Nat)
   | close (i : Nat)
-  | seek (i : Nat) (n : Nat)
+  | seek (i : Nat) (wh : Whence) (off : Int)
+  /-- `set_*` with the current value (`fresh = false`) or a new one -/
+  | set (i : Nat) (k : CtlKind) (fresh : Bool)
+  /-- `next()` during whose frame render the renderable calls back into the iterator -/
+  | nextCb (i : Nat) (cb : CbKind)
   | bump (i : Nat)
   | dropIter (i : Nat)
   /-- the caller: `data.finalize()` -/
@@ -523,7 +587,7 @@ def reachable (w : World) (d : Nat) : Bool := (w.objs d).held || attached w d
 /-- the histories quantified over: ids exist, dropped iterators are gone, and the caller neither
     hands out nor finalizes data that an open iterator is using -/
 def valid (w : World) : Op → Bool
-  | .next i | .close i | .seek i _ | .bump i | .dropIter i => decide (i < w.nIters) && !(w.iters i).dropped
+  | .next i | .close i | .seek i _ _ | .bump i | .dropIter i | .set i _ _ | .nextCb i _ => decide (i < w.nIters) && !(w.iters i).dropped
   | .fromData d _ _ _ _ => decide (d < w.nObjs) && (w.objs d).held && !attached w d
   | .callerFinalize d =>
     decide (d < w.nObjs) && (w.objs d).held && !attached w d && decide ((w.objs d).owner = .caller)
@@ -540,7 +604,9 @@ def opProg : Op → P
   | .fromData d fin l c a => fromDataP d fin l c a
   | .next i => nextP i
   | .close i => closeP i
-  | .seek i n => seekP i n
+  | .seek i wh off => seekP i wh off
+  | .set i k fr => setP i k fr
+  | .nextCb i cb => nextP i (some cb)
   | .bump i => bumpP i
   | .dropIter i => dropIterP i
   | .callerFinalize d => finalizeP d .caller
